@@ -535,6 +535,62 @@ impl Range {
     }
 }
 
+// ---- verification hook (read-only; compiled only with `--cfg nodejs_semver_verif`) ----
+
+/// One end of an interval as stored inside a [Range] (verification hook).
+#[cfg(nodejs_semver_verif)]
+#[derive(Clone, Debug, Eq, PartialEq)]
+pub enum VerifEnd {
+    Unbounded,
+    Including(Version),
+    Excluding(Version),
+}
+
+/// One alternative of a [Range] as stored (verification hook).
+#[cfg(nodejs_semver_verif)]
+#[derive(Clone, Debug, Eq, PartialEq)]
+pub struct VerifInterval {
+    pub lower: VerifEnd,
+    pub upper: VerifEnd,
+    /// the `lower` slot really holds a lower bound
+    pub lower_is_lower: bool,
+    /// the `upper` slot really holds an upper bound
+    pub upper_is_upper: bool,
+}
+
+#[cfg(nodejs_semver_verif)]
+impl Range {
+    /// Read-only view of the stored intervals, one per alternative, in order.
+    pub fn verif_bounds(&self) -> Vec<VerifInterval> {
+        fn end(p: &Predicate) -> VerifEnd {
+            match p {
+                Predicate::Unbounded => VerifEnd::Unbounded,
+                Predicate::Including(v) => VerifEnd::Including(v.clone()),
+                Predicate::Excluding(v) => VerifEnd::Excluding(v.clone()),
+            }
+        }
+        fn split(b: &Bound) -> (bool, VerifEnd) {
+            match b {
+                Bound::Lower(p) => (true, end(p)),
+                Bound::Upper(p) => (false, end(p)),
+            }
+        }
+        self.0
+            .iter()
+            .map(|set| {
+                let (lower_is_lower, lower) = split(&set.lower);
+                let (upper_is_lower, upper) = split(&set.upper);
+                VerifInterval {
+                    lower,
+                    upper,
+                    lower_is_lower,
+                    upper_is_upper: !upper_is_lower,
+                }
+            })
+            .collect()
+    }
+}
+
 impl fmt::Display for Range {
     fn fmt(&self, f: &mut fmt::Formatter<'_>) -> fmt::Result {
         for (i, range) in self.0.iter().enumerate() {
